@@ -190,6 +190,8 @@ class VM:
         # counted - across the nested interpreters of one evaluation, which
         # share this one-element list - and capped well below the host's limit.
         self.host_depth: List[int] = [0]
+        # Arrays whose elements are being joined (an array inside itself joins as "")
+        self._stringifying: List[JSObject] = []
         self.max_host_depth = max(8, (sys.getrecursionlimit() - 200) // 10)
 
     def _enter_host_level(self) -> None:
@@ -945,7 +947,10 @@ class VM:
             method_order = ["valueOf", "toString"]
 
         for method_name in method_order:
-            method = value.get(method_name)
+            # Looked up like any property read: arrays, functions and the other
+            # built-in kinds of object have their methods handed out by
+            # _get_property, not stored on the object
+            method = self._get_property(value, method_name)
             if method is UNDEFINED or method is NULL:
                 continue
             if isinstance(method, JSFunction):
@@ -959,6 +964,18 @@ class VM:
 
         # If we get here, conversion failed
         raise JSTypeError("Cannot convert object to primitive value")
+
+    def _object_to_string(self, obj: JSObject) -> str:
+        """ToString of an object: ToPrimitive with hint string, then ToString.
+
+        Arrays nest, and joining one converts its elements the same way: every
+        level is a level on the host stack and counts against its budget.
+        """
+        self._enter_host_level()
+        try:
+            return to_string(self._to_primitive(obj, "string"))
+        finally:
+            self.host_depth[0] -= 1
 
     def _to_number(self, value: JSValue) -> Union[int, float]:
         """Convert to number, with ToPrimitive for objects."""
@@ -1266,14 +1283,28 @@ class VM:
             # undefined and null convert to empty string in array join/toString
             if elem is UNDEFINED or elem is NULL:
                 return ""
+            if isinstance(elem, JSObject):
+                # A nested array is joined in turn, an object asked for its string
+                return vm._object_to_string(elem)
             return to_string(elem)
 
+        def join_elements(sep):
+            # An array that is already being joined further out (it contains
+            # itself) contributes the empty string
+            if any(outer is arr for outer in vm._stringifying):
+                return ""
+            vm._stringifying.append(arr)
+            try:
+                return sep.join(array_elem_to_string(elem) for elem in arr._elements)
+            finally:
+                vm._stringifying.pop()
+
         def toString_fn(*args):
-            return ",".join(array_elem_to_string(elem) for elem in arr._elements)
+            return join_elements(",")
 
         def join_fn(*args):
-            sep = "," if not args else to_string(args[0])
-            return sep.join(array_elem_to_string(elem) for elem in arr._elements)
+            sep = "," if not args or args[0] is UNDEFINED else to_string(args[0])
+            return join_elements(sep)
 
         def map_fn(*args):
             callback = args[0] if args else None
